@@ -1,5 +1,5 @@
 use crate::{
-    fragment::{Bounds, Rect},
+    fragment::{Bounds, Line, Rect},
     Fragment,
 };
 
@@ -65,12 +65,36 @@ fn is_rect(fragments: &[&Fragment]) -> bool {
             let line_b2 = fragments[b2].as_line().expect("expecting a line");
             line_a1.is_touching_aabb_perpendicular(line_b1)
                 && line_a2.is_touching_aabb_perpendicular(line_b2)
+                && is_closed_box(&[line_a1, line_a2, line_b1, line_b2])
         } else {
             false
         }
     } else {
         false
     }
+}
+
+/// the lines must be exactly the 4 sides of their common bounding box,
+/// each one spanning from corner to corner
+fn is_closed_box(lines: &[&Line; 4]) -> bool {
+    let points = lines.iter().flat_map(|line| [line.start, line.end]);
+    let (min_x, max_x) = points
+        .clone()
+        .fold((f32::MAX, f32::MIN), |(lo, hi), p| (lo.min(p.x), hi.max(p.x)));
+    let (min_y, max_y) = points
+        .fold((f32::MAX, f32::MIN), |(lo, hi), p| (lo.min(p.y), hi.max(p.y)));
+    let is_side = |x1: f32, y1: f32, x2: f32, y2: f32| {
+        lines.iter().any(|line| {
+            line.start.x == x1
+                && line.start.y == y1
+                && line.end.x == x2
+                && line.end.y == y2
+        })
+    };
+    is_side(min_x, min_y, max_x, min_y)
+        && is_side(min_x, max_y, max_x, max_y)
+        && is_side(min_x, min_y, min_x, max_y)
+        && is_side(max_x, min_y, max_x, max_y)
 }
 
 /// qualifications:
